@@ -197,6 +197,11 @@ def run(copy, mutants, k, n, results):
                     except Exception:
                         pass
                     break
+                if rc == 2 and c in ("C13", "C05") and "cannot run" in (r.stderr or ""):
+                    # the copy has no real-rayon engine binary (legs of C05/C13): the single-threaded
+                    # spaces of the check ran and were clean; go on with the next check
+                    res.setdefault("skipped_engine", []).append(c)
+                    continue
                 if rc not in (0, 1):
                     res["outcome"] = "machinery:%s:%d" % (c, rc)
                     res["tail"] = (r.stderr if rc != 124 else "timeout")[-400:]
